@@ -271,11 +271,13 @@ class Resp:
     __slots__ = ('rid', 'kind', 'path', 'src', 'recv_port', 'template',
                  'enabled', 'freed', 'one_shot', 'spent', 'permanent',
                  'created', 'enabled_at', 'fver', 'cmdp_since_enable',
-                 'perm_set_while_disabled', 'replaced_after_one_shot')
+                 'perm_set_while_disabled', 'replaced_after_one_shot', 'disp')
 
-    def __init__(self, rid, kind, path, src, recv_port, template, seq):
+    def __init__(self, rid, kind, path, src, recv_port, template, seq, disp=0):
         self.rid = rid
         self.kind = kind              # 'exact' | 'match'
+        self.disp = disp              # 0 class default dispatcher | n a dispatcher
+                                      # instance given to the constructor
         self.path = path
         self.src = src                # None | (ip, port|None)
         self.recv_port = recv_port    # None | int
@@ -292,6 +294,12 @@ class Resp:
         self.perm_set_while_disabled = False
         self.replaced_after_one_shot = False
 
+    def clone(self):
+        c = Resp.__new__(Resp)
+        for k in Resp.__slots__:
+            setattr(c, k, getattr(self, k))
+        return c
+
     def state(self):
         if self.spent:
             return 'spent-one-shot'
@@ -306,7 +314,7 @@ class Resp:
                 'src': self.src, 'recv_port': self.recv_port,
                 'template': self.template, 'state': self.state(),
                 'one_shot': self.one_shot, 'permanent': self.permanent,
-                'fver': self.fver}
+                'fver': self.fver, 'dispatcher': self.disp}
 
 
 class DispatchModel:
@@ -321,13 +329,21 @@ class DispatchModel:
 
     # -- operations ----------------------------------------------------
     def create(self, kind, path, src=None, recv_port=None, template=None,
-               rid=None):
+               rid=None, disp=0):
         if rid is None:
             rid = self.next_rid
         self.next_rid = max(self.next_rid, rid) + 1
         self.resps[rid] = Resp(rid, kind, path, src, recv_port, template,
-                               self._tick())
+                               self._tick(), disp)
         return rid
+
+    def clone(self):
+        """Independent copy (the real-time shard keeps one per operation
+        prefix of a round)."""
+        c = DispatchModel()
+        c.seq, c.next_rid = self.seq, self.next_rid
+        c.resps = {rid: r.clone() for rid, r in self.resps.items()}
+        return c
 
     def enable(self, rid):
         r = self.resps[rid]
@@ -412,7 +428,7 @@ class DispatchModel:
         dispatcher and path, and both readings of 'registration order'
         (creation, last enabling) agree."""
         ra, rb = self.resps[a], self.resps[b]
-        return (ra.kind == rb.kind and ra.path == rb.path
+        return (ra.kind == rb.kind and ra.disp == rb.disp and ra.path == rb.path
                 and ra.created < rb.created and ra.enabled_at < rb.enabled_at)
 
     def why_not(self, r, address, args, sender, recv_port):
